@@ -46,7 +46,9 @@ static CaseText ser(const C &c) { CaseText t; t.put_i("mode", c.mode); t.put_i("
 static C de(const CaseText &t) { C c; c.mode = (int)t.get_i("mode"); c.threads = (int)t.get_i("threads"); c.batch = (int)t.get_i("batch"); c.proj = t.get_ints<int>("proj"); c.sched = t.get_bytes("sched"); c.readers = (int)t.get_i("readers"); c.fs = gf::getSpec(t); return c; }
 static rc::Gen<C> genC() {
   gf::Opts o; o.max_cols = 12; o.max_rows = 120; o.max_rgs = 2; o.max_pages = 8; o.thrift_extras = false; o.layouts = false; o.stats = false;
-  return rc::gen::mapcat(gf::specGen(o), [](const pw::FileSpec &fs0) {
+  // a third of the files hold string columns only (per-column payload copies, retained page buffers) and at least four of them
+  gf::Opts so = o; so.types = {pq::BYTE_ARRAY}; so.min_cols = 4;
+  return rc::gen::mapcat(rc::gen::weightedOneOf<pw::FileSpec>({{2, gf::specGen(o)}, {1, gf::specGen(so)}}), [](const pw::FileSpec &fs0) {
     pw::FileSpec fs = fs0;
     int nl = (int)pw::leaves(fs.root).size();
     auto proj = rc::gen::weightedOneOf<std::vector<int>>({{4, rc::gen::just(std::vector<int>{})}, {1, rc::gen::container<std::vector<int>>(irange(0, nl - 1))}});
@@ -62,6 +64,26 @@ static std::string batchTranscript(const Bytes &bytes, int mode, int threads, in
   cs::BatchCfg cfg; cfg.batch_size = batch; cfg.threads = threads; cfg.proj = proj;
   cs::BatchRun run = cs::runBatches(op.r, cfg, false);
   return cs::transcript(run);
+}
+// the same content through the column-reader API (page checksums and decoders are entered directly, without the batch
+// reader's serial prefetch in front of them)
+static std::string columnTranscript(const Bytes &bytes, int mode, int batch, bool &opened) {
+  rd::Opened op(bytes, mode, true, 1);
+  opened = op.r != nullptr;
+  if (!op.r) return "open failed\n";
+  std::string o;
+  int nrg = carquet_reader_num_row_groups(op.r), nc = carquet_reader_num_columns(op.r);
+  for (int g = 0; g < nrg; g++)
+    for (int col = 0; col < nc; col++) {
+      rd::ColInfo ci; rd::Content got; std::string err;
+      if (!rd::colInfo(op.r, col, ci)) { o += "no colinfo\n"; continue; }
+      bool ok = rd::readChunk(op.r, g, col, batch, ci.max_def, got, err);
+      o += "rg " + std::to_string(g) + " col " + std::to_string(col) + (ok ? " ok " : " FAIL " + err + " ") + std::to_string(got.rows) + " rows:";
+      for (auto d : got.def) o += std::to_string(d) + ",";
+      o += "|"; for (auto &v : got.values) o += pbt::hex(v) + ",";
+      o += "\n";
+    }
+  return o;
 }
 static int projectedWithPages(const C &c) {
   auto lv = pw::leaves(c.fs.root); std::vector<int> cols = c.proj; if (cols.empty()) for (size_t i = 0; i < lv.size(); i++) cols.push_back((int)i);
@@ -91,7 +113,7 @@ static Verdict runThreads(const C &c) {
 }
 
 // ---------------------------------------------------------------- independent readers
-struct ThreadArg { const Bytes *bytes; int mode; int batch; std::vector<int> proj; pthread_barrier_t *bar; std::string out; bool opened = false; int skew = 0; };
+struct ThreadArg { const Bytes *bytes; int mode; int batch; std::vector<int> proj; pthread_barrier_t *bar; std::string out; bool opened = false; int skew = 0; bool column_api = false; };
 // The library caches one ZSTD context per thread and never frees it when a thread exits; LeakSanitizer reports that for
 // every exited pthread. Leaks are C19's subject; here allocations made by the short-lived reader threads are not tracked.
 extern "C" void __lsan_disable() __attribute__((weak));
@@ -100,7 +122,7 @@ static void *readerThread(void *p) {
   if (__lsan_disable) __lsan_disable();
   pthread_barrier_wait(a->bar);
   for (int i = 0; i < a->skew; i++) sched_yield();
-  a->out = batchTranscript(*a->bytes, a->mode, 1, a->batch, a->proj, a->opened);
+  a->out = a->column_api ? columnTranscript(*a->bytes, a->mode, a->batch, a->opened) : batchTranscript(*a->bytes, a->mode, 1, a->batch, a->proj, a->opened);
   return nullptr;
 }
 static std::string runIndependent(const Bytes &bytes, const C &c, const std::vector<std::string> &refs, bool have_refs) {
@@ -108,13 +130,14 @@ static std::string runIndependent(const Bytes &bytes, const C &c, const std::vec
   std::vector<ThreadArg> args((size_t)N);
   std::vector<pthread_t> th((size_t)N);
   pthread_barrier_t bar; pthread_barrier_init(&bar, nullptr, (unsigned)N);
-  for (int i = 0; i < N; i++) { args[(size_t)i].bytes = &bytes; args[(size_t)i].mode = (c.mode + i) % 3; args[(size_t)i].batch = c.batch; args[(size_t)i].proj = c.proj; args[(size_t)i].bar = &bar; args[(size_t)i].skew = c.sched.empty() ? 0 : c.sched[(size_t)i % c.sched.size()] % 4; }
+  for (int i = 0; i < N; i++) { args[(size_t)i].bytes = &bytes; args[(size_t)i].mode = (c.mode + i) % 3; args[(size_t)i].batch = c.batch; args[(size_t)i].proj = c.proj; args[(size_t)i].bar = &bar; args[(size_t)i].skew = c.sched.empty() ? 0 : c.sched[(size_t)i % c.sched.size()] % 4; args[(size_t)i].column_api = ((i + c.batch) % 3) != 0; }
   for (int i = 0; i < N; i++) pthread_create(&th[(size_t)i], nullptr, readerThread, &args[(size_t)i]);
   for (int i = 0; i < N; i++) pthread_join(th[(size_t)i], nullptr);
   pthread_barrier_destroy(&bar);
   std::vector<std::string> want = refs;
   if (!have_refs) { want.clear(); for (int m = 0; m < 3; m++) { bool o; want.push_back(batchTranscript(bytes, m, 1, c.batch, c.proj, o)); } }   // sequential reference computed afterwards
-  for (int i = 0; i < N; i++) if (args[(size_t)i].out != want[(size_t)args[(size_t)i].mode]) return "reader " + std::to_string(i) + " of " + std::to_string(N) + " (" + rd::modeName(args[(size_t)i].mode) + ") returned different content when used concurrently with the others";
+  std::vector<std::string> wantc; for (int m = 0; m < 3; m++) { bool o; wantc.push_back(columnTranscript(bytes, m, c.batch, o)); }            // column API reference: always afterwards
+  for (int i = 0; i < N; i++) if (args[(size_t)i].out != (args[(size_t)i].column_api ? wantc : want)[(size_t)args[(size_t)i].mode]) return "reader " + std::to_string(i) + " of " + std::to_string(N) + " (" + rd::modeName(args[(size_t)i].mode) + ") returned different content when used concurrently with the others";
   return "";
 }
 static Verdict runIndep(const C &c) {
